@@ -20,6 +20,12 @@ func init() {
 		sc.Cfg.Dir = scratchDir()
 		return sc
 	})
+	// "cacheall:<cache>:<base…>": the base scenario with every node's cache size set to <cache> (in-memory stores)
+	sched.RegisterScenario("cacheall", func(p []string) *sched.Scenario {
+		sc := sched.ScenarioByName(strings.Join(p[2:], ":"))
+		sc.Cfg.CacheSize = atoi(p[1])
+		return sc
+	})
 	monitorCtors["C04"] = func(st *mon.Stats) mon.Monitor { return mon.NewOrder() }
 	monitorCtors["C05"] = func(st *mon.Stats) mon.Monitor { return mon.NewIntegrity() }
 	monitorCtors["C10"] = func(st *mon.Stats) mon.Monitor { return mon.NewValSets() }
